@@ -39,6 +39,7 @@ CHECKS["C14"] = dict(
         dict(name="H14b-principal", pkgs=["./auth"], entry="auth.VfPrincipalMatch", native=True, reach=["checked"]),
         dict(name="H14a-witness", pkgs=["./auth"], entry="auth.VfGlobWitness", witness=True),
         dict(name="H14b-witness", pkgs=["./auth"], entry="auth.VfPolicyWitness", redirects="spec/redirects_policy.json", witness=True),
+        dict(name="H14b-resource", pkgs=["./auth"], entry="auth.VfPolicyResource", native=True, reach=["allowed", "denied"]),
         dict(name="H14c-statement", pkgs=["./auth"], entry="auth.VfPolicyValidate", native=True, reach=["validated"]),
         dict(name="H14c-document", pkgs=["./auth"], entry="auth.VfPolicyDocument", native=True, reach=["validated"]),
     ],
@@ -105,6 +106,7 @@ CHECKS["C16"] = dict(
         dict(name="H16b-listbuckets", pkgs=["./backend/posix"], entry="backend/posix.VfListBuckets", redirects="spec/redirects_fs.json", reach=["listing-complete"]),
         dict(name="H16b-create-existing", pkgs=["./backend/posix"], entry="backend/posix.VfCreateExisting", redirects="spec/redirects_fs.json", reach=["create-returned"]),
         dict(name="H16c-settings", pkgs=["./backend/posix"], entry="backend/posix.VfBucketSettings", redirects="spec/redirects_fs.json", reach=["read-back"]),
+        dict(name="H16d-delete-emptiness", pkgs=["./backend/posix"], entry="backend/posix.VfDeleteBucketEmptiness", redirects="spec/redirects_fs.json", reach=["delete-returned"]),
         dict(name="H16d-delete-race", pkgs=["./backend/posix"], entry="backend/posix.VfDeleteBucketRace", redirects="spec/redirects_fs.json", reach=["both-returned"],
              key_inputs=["nesting"], key_trace=['"the other request runs before']),
     ],
@@ -145,6 +147,7 @@ CHECKS["C03"] = dict(
         dict(name="H03a-policyfold", pkgs=["./auth"], entry="auth.VfPolicyFold", redirects="spec/redirects_policy.json", reach=["allowed", "denied"]),
         dict(name="H03a-verifyaccess", pkgs=["./s3api"], entry="s3api.VfVerifyAccess", redirects="spec/redirects_ctrl.json", reach=["granted", "denied"]),
         dict(name="H03a-copyaccess", pkgs=["./s3api"], entry="s3api.VfCopyAccess", redirects="spec/redirects_ctrl.json", reach=["granted", "denied"]),
+        dict(name="H03a-copyaccess-samebucket", pkgs=["./s3api"], entry="s3api.VfCopyAccessSameBucket", redirects="spec/redirects_ctrl.json", reach=["granted", "denied"]),
         dict(name="H03c-admin", pkgs=["./s3api"], entry="s3api.VfAdminRoutes", redirects="spec/redirects_ctrl.json", reach=["non-admin", "admin-served"],
              key_trace=['"route=']),
     ],
@@ -207,6 +210,8 @@ CHECKS["C20"] = dict(
         dict(name="H20-routes", pkgs=["./s3api"], entry="s3api.VfCrashRoutes", redirects="spec/redirects_ctrl_stub.json", reach=["returned", "handler-entered"],
              key_trace=['"route=']),
         dict(name="H20-auth", pkgs=["./s3api"], entry="s3api.VfAuthCrash", redirects="spec/redirects_auth.json", reach=["answered"]),
+        dict(name="H20-presign", pkgs=["./s3api"], entry="s3api.VfPresignCrash", redirects="spec/redirects_auth.json", reach=["answered"]),
+        dict(name="H20-nobody", pkgs=["./s3api"], entry="s3api.VfNoBodyStream", redirects="spec/redirects_auth.json", reach=["answered", "handler-entered"]),
         dict(name="H20-parsers", pkgs=["./backend"], entry="backend.VfCrashParsers", native=True, reach=["returned"]),
         dict(name="H20-chunk", pkgs=["./s3api/utils"], entry="s3api/utils.VfCrashChunk", redirects="spec/redirects.json", pkgname="utils", native=True, reach=["returned"]),
         dict(name="H20-posix-uploads", pkgs=["./backend/posix"], entry="backend/posix.VfPosixNoCrashUploads", redirects="spec/redirects_fs.json", reach=["returned"],
